@@ -23,6 +23,10 @@ ObsKey(a) == <<SetOfSets(a.top), a.hel2>>
 ObsTermBag(a) == LET ts == { ObsTerm(a.terms[i]) : i \in DOMAIN a.terms } IN
   [ t \in ts |-> Cardinality({ i \in DOMAIN a.terms : ObsTerm(a.terms[i]) = t }) ]
 
+BagAdd(f, g) == [ x \in DOMAIN f \cup DOMAIN g |-> (IF x \in DOMAIN f THEN f[x] ELSE 0) + (IF x \in DOMAIN g THEN g[x] ELSE 0) ]
+RECURSIVE BagSumIdx(_)
+BagSumIdx(ix) == IF ix = {} THEN << >> ELSE LET i == CHOOSE x \in ix : TRUE IN BagAdd(ObsTermBag(Rec.amps[i]), BagSumIdx(ix \ {i}))
+
 \* ---- C02: the helicity formula -----------------------------------------------------------
 ChainClauses ==
   \A k \in DOMAIN Rec.trs :
@@ -30,8 +34,8 @@ ChainClauses ==
      IF c.found = 0 THEN Drift("chain-component-missing", FALSE, k)
      \* the named component holds the chain of the transition or, with identical final-state
      \* particles, of one of its symmetrisation variants (they share the component name)
-     ELSE /\ Clause("chain-wignerD", \E v \in SymVariants(tr) : ObsD(c) = ChainD(v), <<k, ObsD(c), ChainD(tr)>>)
-          /\ Clause("chain-clebsch-gordan", Canonical => \E v \in SymVariants(tr) : ObsD(c) = ChainD(v) /\ ObsCG(c) = ChainCG(v), <<k, ObsCG(c), ChainCG(tr)>>)
+     ELSE /\ Clause("chain-wignerD", \E v \in PermVariants(tr) : ObsD(c) = ChainD(v), <<k, ObsD(c), ChainD(tr)>>)
+          /\ Clause("chain-clebsch-gordan", Canonical => \E v \in PermVariants(tr) : ObsD(c) = ChainD(v) /\ ObsCG(c) = ChainCG(v), <<k, ObsCG(c), ChainCG(tr)>>)
           /\ Clause("chain-no-CG-in-helicity-basis", (~Canonical) => Len(c.CG) = 0, k)
           /\ Clause("chain-sign-unit", c.sign_den = 1 /\ c.sign_num \in {1, -1}, <<k, c.sign_num, c.sign_den>>)
 AmpClauses ==
@@ -46,6 +50,13 @@ AmpClauses ==
         Clause("amplitude-is-coherent-sum-of-its-chains",
                ObsTermBag(a) = ExpectedTermBag(Rec.trs, ObsKey(a), Canonical),
                <<ObsKey(a), ObsTermBag(a), ExpectedTermBag(Rec.trs, ObsKey(a), Canonical)>>)
+  \* whatever symbol they are stored under: the chains of one coherence class (keys that differ by exchanging the
+  \* projections of identical particles) are all there, each once - no symmetrisation term missing or doubled
+  /\ \A i \in { j \in DOMAIN Rec.amps : Rec.amps[j].zero = 0 } :
+        LET k == ObsKey(Rec.amps[i])
+            members == { j \in DOMAIN Rec.amps : Rec.amps[j].zero = 0 /\ SameClass(Rec.trs, k, ObsKey(Rec.amps[j])) } IN
+        Clause("symmetrised-chains-complete-per-coherence-class",
+               BagSumIdx(members) = ClassTermBag(Rec.trs, k, Canonical), <<k, Cardinality(members)>>)
   \* each named intensity component is |coherent sum of all chains with those outer projections, over all topologies|^2
   /\ \A i \in DOMAIN Rec.icomps :
         LET c == Rec.icomps[i]
